@@ -578,6 +578,25 @@ def _quantile(src):
     L += f.clone("wM", f"`quantile`, `interp`: `wM = {m.group(7)}`").value("wM", "Rat")
     L += f.clone("interpSingle", f"`quantile`, `interp`: only `_pth_element(p)` is needed iff `{m.group(9)}` (else "
                                  f"`_pth_interval` selects the order statistics `p` and `p+1`)").cond(m.group(9))
+    # the two sentinel scans of the partition pass, as written in _pth_element and _pth_interval (no bounds test)
+    ops = {"<": "decide (v < a)", "<=": "decide (v ≤ a)", ">": "decide (v > a)", ">=": "decide (v ≥ a)"}
+    for fn in ("_pth_element", "_pth_interval"):
+        body = squash(function_body(src, fn, QT))
+        ms = re.findall(r"while\(\*bufl([<>=]+)a\)\{i(\+\+|--);bufl([+-])=stride;\}"
+                        r"while\(\*bufr([<>=]+)a\)\{j(\+\+|--);bufr([+-])=stride;\}", body)
+        if len(ms) != 1 or body.count("while(*buf") != 2 or any(o not in ops for o in (ms[0][0], ms[0][3])):
+            raise Shape(f"{QT}: {fn}: the two sentinel scans `while (*bufl < a)` / `while (*bufr > a)` not recognised")
+        o1, d1, q1, o2, d2, q2 = ms[0]
+        if (d1 == "++") != (q1 == "+") or (d2 == "++") != (q2 == "+"):
+            raise Shape(f"{QT}: {fn}: index and pointer of a sentinel scan move in different directions")
+        tag = "El" if fn == "_pth_element" else "Iv"
+        L += [f"/-- `{fn}`: `while (*bufl {o1} a) {{i{d1}; bufl {q1}= stride;}}` — the test on the cell read -/",
+              f"def scanUpTest{tag} (v a : Rat) : Bool := {ops[o1]}",
+              f"/-- `{fn}`: the step of `i` in that loop -/",
+              f"def scanUpStep{tag} : Int := {'1' if d1 == '++' else '-1'}",
+              f"/-- `{fn}`: `while (*bufr {o2} a) {{j{d2}; bufr {q2}= stride;}}` -/",
+              f"def scanDownTest{tag} (v a : Rat) : Bool := {ops[o2]}",
+              f"def scanDownStep{tag} : Int := {'1' if d2 == '++' else '-1'}", ""]
     L += ["", "end Quantile", ""]
     return L
 
